@@ -3,7 +3,7 @@
 pub mod attributes;
 mod fields;
 
-use std::{fmt, io};
+use std::{borrow::Cow, fmt, io, iter};
 
 use bstr::{BStr, ByteSlice};
 use noodles_core::Position;
@@ -122,7 +122,48 @@ impl gff::feature::Record for Record<'_> {
     }
 
     fn attributes(&self) -> Box<dyn gff::feature::record::Attributes + '_> {
-        Box::new(self.attributes().unwrap()) // TODO
+        match self.attributes() {
+            Ok(attributes) => Box::new(attributes),
+            Err(e) => Box::new(InvalidAttributes(e)),
+        }
+    }
+}
+
+// Attributes that failed to parse.
+//
+// `gff::feature::Record::attributes` is infallible, so the error is returned when a field is
+// accessed instead.
+struct InvalidAttributes(io::Error);
+
+impl InvalidAttributes {
+    fn error(&self) -> io::Error {
+        io::Error::new(self.0.kind(), self.0.to_string())
+    }
+}
+
+impl gff::feature::record::Attributes for InvalidAttributes {
+    fn is_empty(&self) -> bool {
+        false
+    }
+
+    fn get(
+        &self,
+        _: &[u8],
+    ) -> Option<io::Result<gff::feature::record::attributes::field::Value<'_>>> {
+        Some(Err(self.error()))
+    }
+
+    fn iter(
+        &self,
+    ) -> Box<
+        dyn Iterator<
+                Item = io::Result<(
+                    Cow<'_, BStr>,
+                    gff::feature::record::attributes::field::Value<'_>,
+                )>,
+            > + '_,
+    > {
+        Box::new(iter::once(Err(self.error())))
     }
 }
 
@@ -154,5 +195,33 @@ fn parse_phase(s: &[u8]) -> Option<io::Result<Phase>> {
             io::ErrorKind::InvalidData,
             "invalid phase",
         ))),
+    }
+}
+
+#[cfg(test)]
+mod tests {
+    use super::*;
+
+    #[test]
+    fn test_feature_record_attributes_with_invalid_attributes() -> io::Result<()> {
+        let record = Record::try_new(b"sq0\tNDLS\texon\t8\t13\t.\t+\t.\tid")?;
+        assert!(record.attributes().is_err());
+
+        let attributes = gff::feature::Record::attributes(&record);
+        assert!(!attributes.is_empty());
+        assert!(matches!(
+            attributes.get(b"id"),
+            Some(Err(e)) if e.kind() == io::ErrorKind::InvalidData
+        ));
+        assert!(matches!(
+            attributes.iter().next(),
+            Some(Err(e)) if e.kind() == io::ErrorKind::InvalidData
+        ));
+
+        let record = Record::try_new(b"sq0\tNDLS\texon\t8\t13\t.\t+\t.\tid 0;")?;
+        let attributes = gff::feature::Record::attributes(&record);
+        assert!(matches!(attributes.get(b"id"), Some(Ok(_))));
+
+        Ok(())
     }
 }
